@@ -52,12 +52,12 @@ pub fn rrp_str(p: &RootRelativePath) -> String {
 }
 fn kind_s(k: &SymlinkKind) -> &'static str { match k { SymlinkKind::File => "F", SymlinkKind::Folder => "D", SymlinkKind::Unknown => "U" } }
 fn target_s(t: &SymlinkTarget) -> String {
-    match t { SymlinkTarget::Normalized(s) => format!("N{}", hexs(s)), SymlinkTarget::NotNormalized(s) => format!("X{}", hexs(s)) }
+    match t { SymlinkTarget::Normalized(s) => format!("N{}", hexs(s)), SymlinkTarget::NotNormalized(b) => format!("X{}", hex(b)) }
 }
 pub fn parse_kind(s: &str) -> Option<SymlinkKind> { match s { "F" => Some(SymlinkKind::File), "D" => Some(SymlinkKind::Folder), "U" => Some(SymlinkKind::Unknown), _ => None } }
 pub fn parse_target(s: &str) -> Option<SymlinkTarget> {
-    let body = String::from_utf8(unhex(&s[1..])?).ok()?;
-    match s.as_bytes().first()? { b'N' => Some(SymlinkTarget::Normalized(body)), b'X' => Some(SymlinkTarget::NotNormalized(body)), _ => None }
+    let body = unhex(&s[1..])?;
+    match s.as_bytes().first()? { b'N' => Some(SymlinkTarget::Normalized(String::from_utf8(body).ok()?)), b'X' => Some(SymlinkTarget::NotNormalized(body)), _ => None }
 }
 pub fn parse_details(s: &str) -> Option<EntryDetails> {
     let parts: Vec<&str> = s.split(':').collect();
